@@ -1561,3 +1561,270 @@ Proof.
   - eapply J_pdel with (p := p4); eauto; try reflexivity. intros l0 Hl0. rewrite Q4 in Hl0. inversion Hl0; subst. apply tl_empty_items; auto.
   - eapply QS_same; eauto; reflexivity.
 Qed.
+
+Lemma add_insert_K : forall p t local r p', K p -> (forall u, listed p u -> thash u <> thash t) -> add_insert p t local = (r, p') -> K p'.
+Proof.
+  intros p t local r p' [HJ HS] Hfr H. unfold add_insert in H.
+  assert (Henq : (forall u, in_pending p (tfrom t) u -> tnonce u <> tnonce t) ->
+     forall r p', match enqueue_tx p t with (inr e, p2) => (inr e, p2) | (inl rep, p2) => (inl rep, mark_local p2 (tfrom t) local) end = (r, p') -> K p').
+  { intros Hpre r0 p0 H0. destruct (enqueue_J p t [] HJ Hpre Hfr) as (Jq & _). pose proof (enqueue_QS p t HS) as Sq.
+    destruct (enqueue_tx p t) as [[rep|e] p2]; cbn [snd] in *; inversion H0; subst; [|split; [exact Jq|exact Sq]].
+    unfold mark_local. destruct local; split; try exact Jq; exact Sq. }
+  destruct (assoc (tfrom t) (pending p)) as [l|] eqn:P.
+  - destruct (tl_overlaps l t) eqn:Ov.
+    + destruct (tl_add l t (c_bump (conf p))) as [[ins old] l'] eqn:E. destruct ins; [|inversion H; subst; split; auto].
+      inversion H; subst; clear H. pose proof (tl_add_ok _ _ _ _ _ E) as [Hit Hold].
+      match goal with |- K ?Q => set (q := Q) end.
+      assert (Hl : list_of (pending p) (tfrom t) true = l) by (unfold list_of; rewrite P; auto).
+      destruct (J_pins p q t true l' [] HJ) as (_ & Jq & _); auto.
+      * intros u Hu. unfold tl_overlaps, tl_get in Ov. destruct (find (fun x => tnonce x =? tnonce t) (items l)) as [x|] eqn:Fd; [|discriminate].
+        apply find_some in Fd. destruct Fd as [Hin Hn]. destruct HJ as ((_ & _ & HD) & _ & _).
+        assert (Hxu : tnonce x <> tnonce u) by (apply (HD (tfrom t)); auto; exists l; auto). lia.
+      * rewrite Hl. exact Hit.
+      * subst q. destruct old; reflexivity.
+      * subst q. destruct old; reflexivity.
+      * intros h. rewrite Hl. subst q old. destruct (tl_get l (tnonce t)); reflexivity.
+      * split; [exact Jq|]. eapply QS_same; [exact HS|]. subst q. destruct old; reflexivity.
+    + eapply Henq; eauto. intros u (lp & Hlp & Hu). rewrite P in Hlp. inversion Hlp; subst.
+      unfold tl_overlaps in Ov. destruct (tl_get lp (tnonce t)) eqn:G; [discriminate|]. eapply tl_get_none; eauto.
+  - eapply Henq; eauto. intros u (lp & Hlp & Hu). rewrite P in Hlp. discriminate.
+Qed.
+
+Lemma tl_remove_facts : forall o l t b invs l', tl_remove o l t = (b, invs, l') ->
+  (b = true <-> exists x, In x (items l) /\ tnonce x = tnonce t) /\ (forall x, In x invs -> tnonce t < tnonce x) /\ (strict l = false -> invs = []).
+Proof.
+  intros o l t b invs l' H. unfold tl_remove in H. destruct (tl_get l (tnonce t)) as [x|] eqn:G.
+  - apply tl_get_some in G. destruct (strict l); inversion H; subst; clear H; (split; [split; eauto|split]); try discriminate; auto.
+    + intros y Hy. apply order_txs_in in Hy. apply filter_In in Hy. destruct Hy as [_ Hy]. lia.
+    + intros y [].
+  - inversion H; subst. split; [split; [discriminate|]|split; auto].
+    + intros (x & Hx & Hn). exfalso. eapply tl_get_none; eauto.
+    + intros y [].
+Qed.
+
+Lemma remove_K : forall o p h, K p -> K (remove_tx o p h) /\ (forall u, listed (remove_tx o p h) u -> listed p u).
+Proof.
+  intros o p h [HJ HS]. unfold remove_tx. destruct (assoc h (all p)) as [t|] eqn:A; [|split; [split; auto|auto]].
+  pose proof HJ as (U & [W1 W2] & O). pose proof (W1 _ _ A) as Eh. subst h.
+  assert (Lt : listed p t) by (destruct (O t A) as [L|[]]; auto).
+  pose proof U as (HP & HQ & HD).
+  set (a := tfrom t) in *. set (p1 := all_drop p (thash t)).
+  (* the queue branch, when t is queued *)
+  assert (HQb : forall f, assoc a (queue p) = Some f -> In t (items f) ->
+     let r := match assoc a (queue p1) with
+              | None => p1
+              | Some f => let '(_, _, f') := tl_remove o f t in
+                          if tl_empty f' then set_queue p1 (assoc_del a (queue p1)) else set_queue p1 (assoc_set a f' (queue p1))
+              end in K r /\ (forall u, listed r u -> listed p u)).
+  { intros f Hf Hin. change (queue p1) with (queue p). rewrite Hf.
+    destruct (tl_remove o f t) as [[b invs] f'] eqn:R. destruct (tl_remove_facts _ _ _ _ _ _ R) as (Hb & _ & Hns).
+    assert (b = true) by (apply Hb; exists t; auto). subst b. assert (invs = []) by (apply Hns; eapply HS; eauto). subst invs.
+    destruct (tl_remove_parts _ _ _ _ _ R) as (Pa & St & _). pose proof (tl_remove_ok _ _ _ _ _ _ R) as Sp.
+    destruct (HQ _ _ Hf) as [Hsf Hff]. rewrite (filter_nonce_singleton _ _ Hsf Hin) in Pa.
+    destruct (qshrink_drop_J p a f f' [] [t] [] HJ Hf Sp Pa) as [Jv _]. { intros x _ []. }
+    set (pv := drop_all (set_queue p (assoc_set a f' (queue p))) [t]) in *.
+    assert (Lv : forall u, listed pv u -> listed p u).
+    { intros u [b [(lp & Hlp & Hu)|(lq & Hlq & Hu)]]; cbn in Hlp || cbn in Hlq.
+      - exists b. left. exists lp. auto.
+      - destruct (Z.eq_dec b a) as [->|Hne]; [rewrite assoc_set_same in Hlq; inversion Hlq; subst; exists a; right; exists f; split; auto; destruct (Sp Hsf) as (_ & I & _); auto|].
+        rewrite assoc_set_other in Hlq by auto. exists b. right. exists lq. auto. }
+    destruct (tl_empty f') eqn:Em.
+    - split; [split|].
+      + eapply J_qdel with (p := pv) (a := a); [exact Jv| |reflexivity| |reflexivity].
+        * intros l0 Hl0. cbn in Hl0. rewrite assoc_set_same in Hl0. inversion Hl0; subst. apply tl_empty_items; auto.
+        * cbn. rewrite assoc_del_set. reflexivity.
+      + eapply QS_del; [exact HS|reflexivity].
+      + intros u [b [(lp & Hlp & Hu)|(lq & Hlq & Hu)]]; cbn in Hlp || cbn in Hlq.
+        * exists b. left. exists lp. auto.
+        * destruct (Z.eq_dec b a) as [->|Hne]; [rewrite assoc_del_same in Hlq; discriminate|]. rewrite assoc_del_other in Hlq by auto. exists b. right. exists lq. auto.
+    - split; [split|].
+      + eapply J_same with (p := pv); [reflexivity|reflexivity|reflexivity|exact Jv].
+      + apply (QS_set p _ a f' HS); [rewrite St; eapply HS; eauto|reflexivity].
+      + intros u Hu. apply Lv. exact Hu. }
+  destruct (listed_keyed p t U Lt) as [(pl & Hpl & Hin)|(f & Hf & Hin)]; fold a in Hpl || fold a in Hf.
+  - (* t is pending *)
+    change (pending p1) with (pending p). rewrite Hpl.
+    destruct (tl_remove o pl t) as [[b invs] pl'] eqn:R. destruct (tl_remove_facts _ _ _ _ _ _ R) as (Hb & Hgt & _).
+    assert (b = true) by (apply Hb; exists t; auto). subst b.
+    destruct (tl_remove_parts _ _ _ _ _ R) as (Pa & _ & Nd). pose proof (tl_remove_ok _ _ _ _ _ _ R) as Sp.
+    destruct (HP _ _ Hpl) as [Hsp Hfp]. rewrite (filter_nonce_singleton _ _ Hsp Hin) in Pa. destruct (Sp Hsp) as (_ & Ip & Iv & Dv).
+    destruct (pshrink_drop_J p a pl pl' invs [t] invs HJ Hpl Sp Pa) as [Jv Fv]. { intros x [<-|[]] Hx. specialize (Hgt _ Hx). lia. }
+    set (pv := drop_all (set_pending p (assoc_set a pl' (pending p))) [t]) in *.
+    assert (Lv : forall u, listed pv u -> listed p u).
+    { intros u [b [(lp & Hlp & Hu)|(lq & Hlq & Hu)]]; cbn in Hlp || cbn in Hlq.
+      - destruct (Z.eq_dec b a) as [->|Hne]; [rewrite assoc_set_same in Hlp; inversion Hlp; subst; exists a; left; exists pl; split; auto|].
+        rewrite assoc_set_other in Hlp by auto. exists b. left. exists lp. auto.
+      - exists b. right. exists lq. auto. }
+    match goal with |- K (if _ then pn_set ?XX _ _ else _) /\ _ => set (X := XX) end.
+    assert (HX : K X /\ (forall u, listed X u -> listed p u)).
+    { subst X. match goal with |- K (fold_left _ invs ?PB) /\ _ => set (pb := PB) end.
+      assert (Hpb : J pb invs /\ QS pb /\ (forall u, listed pb u -> listed pv u) /\ all pb = all pv /\ queue pb = queue p /\
+                    (forall x u, In x invs -> in_pending pb a u -> tnonce u <> tnonce x)).
+      { subst pb. destruct (tl_empty pl') eqn:Em.
+        - split; [|split; [|split; [|split; [|split]]]]; try reflexivity.
+          + eapply J_pdel with (p := pv) (a := a); [exact Jv| |reflexivity| |reflexivity].
+            * intros l0 Hl0. cbn in Hl0. rewrite assoc_set_same in Hl0. inversion Hl0; subst. apply tl_empty_items; auto.
+            * cbn. rewrite assoc_del_set. reflexivity.
+          + eapply QS_same; [exact HS|reflexivity].
+          + intros u [b [(lp & Hlp & Hu)|(lq & Hlq & Hu)]]; cbn in Hlp || cbn in Hlq.
+            * destruct (Z.eq_dec b a) as [->|Hne]; [rewrite assoc_del_same in Hlp; discriminate|]. rewrite assoc_del_other in Hlp by auto.
+              exists b. left. exists lp. cbn. rewrite assoc_set_other by auto. auto.
+            * exists b. right. exists lq. auto.
+          + intros x u Hx (lp & Hlp & Hu). cbn in Hlp. rewrite assoc_del_same in Hlp. discriminate.
+        - split; [|split; [|split; [|split; [|split]]]]; try reflexivity.
+          + eapply J_same with (p := pv); [reflexivity|reflexivity|reflexivity|exact Jv].
+          + eapply QS_same; [exact HS|reflexivity].
+          + intros u Hu. exact Hu.
+          + intros x u Hx (lp & Hlp & Hu). cbn in Hlp. rewrite assoc_set_same in Hlp. inversion Hlp; subst. intros E. apply (Dv x u); auto. }
+      destruct Hpb as (Jb & Sb & Lb & Ab & Qb & Npb).
+      destruct (requeue_J invs pb a [] Jb) as (JX & PX & MX); auto.
+      + rewrite Forall_forall in *. intros x Hx. apply Hfp. apply Iv. auto.
+      + intros x Hx. destruct (Fv x Hx) as [A1 A2]. split; [rewrite Ab; exact A1|]. intros L. apply A2. apply Lb. auto.
+      + intros x u Hx Hu. unfold in_queue in Hu. rewrite Qb in Hu. intros E. apply (HD a x u); auto. exists pl; auto.
+      + split; [split; [exact JX|apply enqueue_fold_QS; exact Sb]|].
+        intros u Hu. destruct (MX _ Hu) as [H1|H1]; [exists a; left; exists pl; auto|apply Lv; apply Lb; auto]. }
+    destruct HX as [KX MX]. match goal with |- K (if ?c then _ else _) /\ _ => destruct c end; split; try exact KX; exact MX.
+  - (* t is queued *)
+    change (pending p1) with (pending p).
+    destruct (assoc a (pending p)) as [pl|] eqn:P; [|apply (HQb f); auto].
+    destruct (tl_remove o pl t) as [[b invs] pl'] eqn:R. destruct (tl_remove_facts _ _ _ _ _ _ R) as (Hb & _ & _).
+    destruct b; [|apply (HQb f); auto]. exfalso. destruct (proj1 Hb eq_refl) as (x & Hx & Hn).
+    apply (HD a x t); auto; [exists pl; auto|exists f; auto].
+Qed.
+
+(* ---------------------------------------------------------------- K through the loops and the operations (same shape as the _un lemmas) *)
+Lemma remove_fold_K : forall o (l : list tx) p, K p ->
+  K (fold_left (fun q t => remove_tx o q (thash t)) l p) /\ (forall u, listed (fold_left (fun q t => remove_tx o q (thash t)) l p) u -> listed p u).
+Proof.
+  induction l as [|x l IH]; intros p HK; cbn [fold_left]; auto.
+  destruct (remove_K o p (thash x) HK) as [K1 M1]. destruct (IH _ K1) as [K2 M2]. split; auto.
+Qed.
+Lemma shrink_fold_K : forall l (st r : pool * Z), K (fst st) ->
+  fold_res (fun (st : pool * Z) a => q <- shrink_one (fst st) a ;; Ok (q, (snd st - 1) mod two64)) l st = Ok r -> K (fst r).
+Proof.
+  intros l st r Hun H. eapply (fold_res_inv _ _ (fun st => K (fst st))); eauto.
+  intros a x a' Ha Hf. apply bind_ok in Hf. destruct Hf as (q & H1 & H2). inversion H2; subst. cbn [fst]. eapply shrink_one_K; eauto.
+Qed.
+Lemma equalize_K : forall fuel p cnt offs th r, K p -> equalize fuel p cnt offs th = Ok r -> K (fst r).
+Proof.
+  induction fuel as [|f IH]; intros p cnt offs th r Hun H; cbn [equalize] in H; [discriminate|].
+  apply bind_ok in H. destruct H as (n & _ & H).
+  destruct ((c_gslots (conf p) <? cnt) && (th <? n)); [|inversion H; subst; auto].
+  apply bind_ok in H. destruct H as (r1 & H1 & H2). eapply IH; [|exact H2]. eapply shrink_fold_K; [|exact H1]. auto.
+Qed.
+Lemma spam_loop_K : forall fuel o p cnt sp offs r, K p -> spam_loop fuel o p cnt sp offs = Ok r -> K (fst (fst r)).
+Proof.
+  induction fuel as [|f IH]; intros o p cnt sp offs r Hun H; cbn [spam_loop] in H; [discriminate|].
+  destruct (c_gslots (conf p) <? cnt); [|inversion H; subst; auto].
+  destruct (prque_pop o sp) as [[off rest]|]; [|inversion H; subst; auto].
+  destruct (1 <? Z.of_nat (length (offs ++ [off]))).
+  - apply bind_ok in H. destruct H as (th & _ & H). apply bind_ok in H. destruct H as (r1 & H1 & H2).
+    eapply IH; [|exact H2]. eapply equalize_K; eauto.
+  - eapply IH; eauto.
+Qed.
+Lemma minimum_loop_K : forall fuel p cnt offs r, K p -> minimum_loop fuel p cnt offs = Ok r -> K (fst r).
+Proof.
+  induction fuel as [|f IH]; intros p cnt offs r Hun H; cbn [minimum_loop] in H; [discriminate|].
+  apply bind_ok in H. destruct H as (n & _ & H).
+  destruct ((c_gslots (conf p) <? cnt) && (c_aslots (conf p) <? n)); [|inversion H; subst; auto].
+  apply bind_ok in H. destruct H as (r1 & H1 & H2). eapply IH; [|exact H2]. eapply shrink_fold_K; [|exact H1]. auto.
+Qed.
+Lemma pe_pending_limit_K : forall o p p', K p -> pe_pending_limit o p = Ok p' -> K p'.
+Proof.
+  intros o p p' Hun H. unfold pe_pending_limit in H. destruct (c_gslots (conf p) <? pending_count p); [|inversion H; subst; auto].
+  apply bind_ok in H. destruct H as ([[p1 cnt1] offs] & H1 & H2). apply spam_loop_K in H1; auto. cbn [fst] in H1.
+  destruct ((c_gslots (conf p1) <? cnt1) && negb (match offs with [] => true | _ => false end)); [|inversion H2; subst; auto].
+  apply bind_ok in H2. destruct H2 as (r2 & H3 & H4). inversion H4; subst. eapply minimum_loop_K; eauto.
+Qed.
+Lemma gq_loop_K : forall o addrs p drop p', K p -> gq_loop o p addrs drop = Ok p' -> K p'.
+Proof.
+  induction addrs as [|a rest IH]; intros p drop p' Hun H; cbn [gq_loop] in H; [inversion H; subst; auto|].
+  destruct (0 <? drop); [|inversion H; subst; auto]. destruct (assoc a (queue p)) as [l|]; [|discriminate].
+  destruct (tl_len l <=? drop); eapply IH; try exact H; apply remove_fold_K; auto.
+Qed.
+Lemma promote_executables_K : forall o p accs p', K p -> promote_executables o p accs = Ok p' -> K p'.
+Proof.
+  intros o p accs p' Hun H. unfold promote_executables in H.
+  apply bind_ok in H. destruct H as (p1 & H1 & H). apply bind_ok in H. destruct H as (p2 & H2 & H3).
+  assert (U1 : K p1). { eapply (fold_res_inv _ _ K); [|exact Hun|exact H1]. intros; eapply pe_account_K; eauto. }
+  assert (U2 : K p2) by (eapply pe_pending_limit_K; eauto).
+  unfold pe_queue_limit in H3. destruct (c_gqueue (conf p2) <? queued_count p2); [|inversion H3; subst; auto]. eapply gq_loop_K; eauto.
+Qed.
+Lemma add_K : forall o p t local r p', K p -> add o p t local = (r, p') -> K p'.
+Proof.
+  intros o p t local r p' HK H. unfold add in H. destruct (assoc (thash t) (all p)) eqn:A; [inversion H; subst; auto|].
+  assert (Hfr : forall u, listed p u -> thash u <> thash t) by (apply fresh_from_none; [apply HK|exact A]).
+  destruct (validate_tx p t local); [inversion H; subst; auto|].
+  match type of H with (if ?c then _ else _) = _ => destruct c end; [|eapply add_insert_K; eauto].
+  destruct (priced_underpriced o (all p) (locals p) (pricedl p) t) as [u pr]. destruct u; [inversion H; subst; exact HK|].
+  match type of H with (let '(_, _) := ?d in _) = _ => destruct d as [drop pr1] end.
+  match type of H with add_insert (fold_left ?f drop ?p0) _ _ = _ => destruct (remove_fold_K o drop p0) as [K1 M1]; [exact HK|] end.
+  eapply add_insert_K; [exact K1| |exact H]. intros u Hu. apply Hfr. apply M1 in Hu. exact Hu.
+Qed.
+Lemma add_tx_K : forall o p t local e p', K p -> add_tx o p t local = Ok (e, p') -> K p'.
+Proof.
+  intros o p t local e p' Hun H. unfold add_tx in H. destruct (add o p t local) as [[rep|er] p1] eqn:A; pose proof (add_K _ _ _ _ _ _ Hun A) as U1.
+  - destruct rep; [inversion H; subst; auto|]. apply bind_ok in H. destruct H as (p2 & H1 & H2). inversion H2; subst. eapply promote_executables_K; eauto.
+  - inversion H; subst; auto.
+Qed.
+Lemma add_txs_locked_K : forall o p txs local r, K p -> add_txs_locked o p txs local = Ok r -> K (snd r).
+Proof.
+  intros o p txs local r Hun H. unfold add_txs_locked in H.
+  assert (G : forall txs st, K (snd st) -> K (snd (fold_left (atl_step o local) txs st))).
+  { induction txs0 as [|t txs0 IH]; intros st Hst; cbn [fold_left]; auto. apply IH.
+    destruct st as [[errs dirty] q]. cbn [snd] in *. unfold atl_step. destruct (add o q t local) as [[rep|er] q1] eqn:A; cbn [snd]; eapply add_K; eauto. }
+  specialize (G txs ([], [], p) Hun).
+  destruct (fold_left (atl_step o local) txs ([], [], p)) as [[errs dirty] p1]. cbn [snd] in G.
+  destruct dirty; [inversion H; subst; auto|]. apply bind_ok in H. destruct H as (p2 & H1 & H2). inversion H2; subst. cbn [snd].
+  eapply promote_executables_K; eauto.
+Qed.
+Lemma demote_unexecutables_K : forall o p p', K p -> demote_unexecutables o p = Ok p' -> K p'.
+Proof.
+  intros o p p' Hun H. unfold demote_unexecutables in H. eapply (fold_res_inv _ _ K); [|exact Hun|exact H].
+  intros; eapply demote_account_K; eauto.
+Qed.
+Lemma reset_K : forall o p c g ri p', K p -> reset o p c g ri = Ok p' -> K p'.
+Proof.
+  intros o p c g ri p' Hun H. unfold reset in H.
+  assert (U0 : K (set_head p c g)) by exact Hun.
+  apply bind_ok in H. destruct H as (p1 & H1 & H). apply bind_ok in H. destruct H as (p2 & H2 & H). apply bind_ok in H. destruct H as (p3 & H3 & H4).
+  assert (U1 : K p1).
+  { destruct ri; [inversion H1; subst; auto|]. apply bind_ok in H1. destruct H1 as (r & A & B). inversion B; subst. eapply add_txs_locked_K; eauto. }
+  assert (U2 : K p2) by (eapply demote_unexecutables_K; eauto).
+  assert (U3 : K p3).
+  { eapply (fold_res_inv _ _ K); [|exact U2|exact H3]. intros q a q' Hq Hf. cbv beta in Hf. destruct (assoc a (pending q)) as [tl|]; [|inversion Hf; subst; auto].
+    destruct (rev (items tl)); [discriminate|]. inversion Hf; subst. exact Hq. }
+  eapply promote_executables_K; eauto.
+Qed.
+Lemma set_gas_price_K : forall o p g, K p -> K (set_gas_price o p g).
+Proof.
+  intros o p g Hun. unfold set_gas_price. match goal with |- context [priced_cap ?a ?b ?c ?d ?e] => destruct (priced_cap a b c d e) as [drop pr] end.
+  apply remove_fold_K. exact Hun.
+Qed.
+Lemma step_K : forall o p x p', K p -> step o p x = Ok p' -> K p'.
+Proof.
+  intros o p x p' Hun H. destruct x; cbn [step] in H.
+  - apply bind_ok in H. destruct H as ([e q] & H1 & H2). inversion H2; subst. eapply add_tx_K; eauto.
+  - apply bind_ok in H. destruct H as ([e q] & H1 & H2). inversion H2; subst. eapply add_tx_K; eauto.
+  - inversion H; subst. apply set_gas_price_K; auto.
+  - eapply reset_K; eauto.
+Qed.
+Lemma new_pool_K : forall c gp cur0 gas0, K (new_pool c gp cur0 gas0).
+Proof.
+  intros. split; [split; [apply new_pool_un|split; [split|]]|]; cbn.
+  - intros h t H. discriminate.
+  - intros t [b [(l & H & _)|(l & H & _)]]; discriminate.
+  - intros t H. discriminate.
+  - intros a l H. discriminate.
+Qed.
+Theorem K_invariant : forall h p p', K p -> run p h = Ok p' -> K p'.
+Proof.
+  induction h as [|[o x] h IH]; intros p p' Hun H; cbn [run] in H; [inversion H; subst; auto|].
+  apply bind_ok in H. destruct H as (p1 & H1 & H2). eapply IH; [|exact H2]. eapply step_K; eauto.
+Qed.
+(* 2b. all = pending ∪ queue after every history, under every oracle *)
+Theorem all_is_union_invariant : forall h c gp cur0 gas0 p', run (new_pool c gp cur0 gas0) h = Ok p' -> all_is_union p'.
+Proof.
+  intros h c gp cur0 gas0 p' H. apply all_exact_union. pose proof (K_invariant h _ _ (new_pool_K c gp cur0 gas0) H) as [HJ _].
+  apply J_exact in HJ. apply HJ.
+Qed.
